@@ -467,11 +467,34 @@ func (g *caGen) notiOp(n gNoti) {
 	g.emit("upd %d %s", g.now, n.token())
 }
 
+// profile-dependent remapping of the op selector: the default mix, or more weight on the
+// malformed / metadata-addressed stream (c12), on lifecycle calls over several targets (c14),
+// or on timestamp collisions of single updates and deletes (c02).
+func (g *caGen) selector() int {
+	r := g.r
+	x := r.Intn(100)
+	switch genProfile {
+	case "c12":
+		if r.Intn(3) == 0 {
+			return 75 + r.Intn(7) // malformed
+		}
+	case "c14":
+		if r.Intn(3) == 0 {
+			return 82 + r.Intn(16) // lifecycle
+		}
+	case "c02":
+		if r.Intn(3) == 0 {
+			return r.Intn(50) // single updates and deletes
+		}
+	}
+	return x
+}
+
 func (g *caGen) step() {
 	r := g.r
 	g.tick()
 	t := g.target()
-	switch x := r.Intn(100); {
+	switch x := g.selector(); {
 	case x < 38: // single update
 		pre, u, key := g.genUpdate(t)
 		ts := g.pickTS(key)
